@@ -273,6 +273,14 @@ def generate_grammar(bnf_grammar: str, token_namespace) -> Grammar:
                         reserved_strings,
                         terminal_or_nonterminal
                     )
+                    if transition in dfa_state.transitions:
+                        # The same token spelled in two ways (e.g. 'x' and
+                        # "x") on two arcs of one state.
+                        raise ValueError(
+                            "Rule %s is ambiguous; the token %s is claimed by "
+                            "more than one arc of the same state."
+                            % (nonterminal, terminal_or_nonterminal)
+                        )
                     dfa_state.transitions[transition] = DFAPlan(next_dfa)
 
     _calculate_tree_traversal(rule_to_dfas)
